@@ -158,9 +158,10 @@ def check_failure(q, md, where, viol, mech=""):
         bad("status", "want 'error' got %r" % (md.get("status"),))
     if not md.get("is_error"):
         bad("is_error", "error flag not set (status %r)" % (md.get("status"),))
-    msgs = [e for e in (md.get("log") or []) + (md.get("child_log") or []) if e.get("kind") == "error" and e.get("message")]
+    # the entry of kind 'error' is the message; an exception raised without text has an empty one (its traceback says more)
+    msgs = [e for e in (md.get("log") or []) + (md.get("child_log") or []) if e.get("kind") == "error" and (e.get("message") or e.get("traceback"))]
     if not msgs:
-        bad("error_message", "no error message in log / child_log")
+        bad("error_message", "no error entry in log / child_log")
 
 
 def run_shard(spec):
